@@ -24,6 +24,34 @@ def _fn(name, d, out=z3.RealSort()):
     return _FUNCS[key]
 
 
+_TRAIN = {}
+
+
+def _elem_key(v):
+    if isinstance(v, core.Sym) and core.is_sym(v):
+        t = type(v).__name__
+        if t == "SymFloat":
+            return ("f", v.r.get_id(), repr(v.nan), repr(v.pinf), repr(v.ninf))
+        return (t, v.e.get_id())
+    if isinstance(v, float) and v != v:
+        return "nan"
+    return v
+
+
+def _train_key(base, X, y, sw):
+    parts = [base]
+    for a in (X, y, sw):
+        if a is None:
+            parts.append(None)
+        else:
+            a = asnd(a)
+            parts.append((a.shape, tuple(_elem_key(v) for v in raw(a).reshape(-1))))
+    key = tuple(parts)
+    if key not in _TRAIN:
+        _TRAIN[key] = 1000 + len(_TRAIN)
+    return _TRAIN[key]
+
+
 def _row_terms(row):
     out = []
     for v in row:
@@ -49,7 +77,9 @@ def make_stub_classifier():
 
         def fit(self, X, y, sample_weight=None):
             self.fit_log_ = getattr(self, "fit_log_", []) + [(X, y, sample_weight)]
-            self.gen_ = next(_GEN) + 1000
+            # a deterministic learner: the fitted model is a function of the training data (and of the estimator's
+            # parameters) only -> equal training sets give the same model generation
+            self.gen_ = _train_key(self.gen, X, y, sample_weight)
             self.classes_ = np.arange(self.n_classes) if self.classes is None else np.asarray(self.classes)
             return self
 
